@@ -197,6 +197,17 @@ func runC07(c *Ctx) {
 						ok = true
 					}
 				})
+				// ... or emptied in place with clear(acc): the same for the decoder, and nobody else can see it because
+				// every entry owns its header map (O7.5 entry-owns-its-header-map)
+				EachInstr(g, func(in ssa.Instruction) {
+					cl, isCall := in.(*ssa.Call)
+					if !isCall || !IsBuiltinCall(cl, "clear") || len(cl.Call.Args) != 1 {
+						return
+					}
+					if IsFieldLoad(cl.Call.Args[0], "", hf) && InstrDominates(in, sk) && sameInnermostLoop(in.Block(), sk.Block()) {
+						ok = true
+					}
+				})
 				c.Check(ok, "O7.2", fk(g)+":"+hf+"-reset-before-seek", sk.Pos(), "the header accumulator "+hf+" must be replaced by a fresh map before seeking back to the start (in-file headers are forgotten at each new pass)")
 			}
 			// O7.3
